@@ -1,8 +1,9 @@
 import Uniseg.Properties.C04
 import Uniseg.Properties.C08
+import Uniseg.Class.L
 /-! # C12 — hard line breaks, end-of-text flags and CR LF are treated consistently -/
 namespace Uniseg.Properties.C12
-open Uniseg Uniseg.Gen Uniseg.Auto Uniseg.Chain Uniseg.Spec Uniseg.ChainStep
+open Uniseg Uniseg.Gen Uniseg.Auto Uniseg.Chain Uniseg.Spec Uniseg.ChainStep Uniseg.Ref Uniseg.Class
 
 /-! ## CR LF is never split: in every annex the CR × LF rule comes first -/
 
@@ -52,6 +53,35 @@ theorem must_iff (l : LB.Ch) (ls : List LB.Ch) (right : List LB.Ch) :
               false_and, or_self, iff_false]
             split <;> (intro h; cases h)
 
+/-- at a position that is not the end of the text and where a break is allowed or required, the break
+is required iff the code point before it is BK, CR, LF or NL — i.e. iff `HasTrailingLineBreak` holds
+of the segment that ends there (`hasTrailingLineBreak_iff` below; a CR directly followed by LF is
+never such a position, by LB5) -/
+theorem nonfinal_must_iff (l : LB.Ch) (ls : List LB.Ch) (r : LB.Ch) (rs : List LB.Ch)
+    (hb : LB.lbVerdict (l :: ls) (r :: rs) ≠ .no) :
+    LB.lbVerdict (l :: ls) (r :: rs) = .must ↔ (l.cls = .BK ∨ l.cls = .CR ∨ l.cls = .LF ∨ l.cls = .NL) := by
+  rw [must_iff]
+  constructor
+  · rintro (h | h | h | h | ⟨h, _⟩)
+    · cases h
+    · exact Or.inl h
+    · exact Or.inr (Or.inr (Or.inl h))
+    · exact Or.inr (Or.inr (Or.inr h))
+    · exact Or.inr (Or.inl h)
+  · rintro (h | h | h | h)
+    · exact Or.inr (Or.inl h)
+    · refine Or.inr (Or.inr (Or.inr (Or.inr ⟨h, ?_⟩)))
+      rintro ⟨r', rs', he, hlf⟩
+      cases he
+      apply hb
+      obtain ⟨lc, la, lp⟩ := l
+      obtain ⟨rc, ra, rp⟩ := r
+      simp only at h hlf
+      subst h; subst hlf
+      exact lb_cr_lf _ _ _ _ _ _
+    · exact Or.inr (Or.inr (Or.inl h))
+    · exact Or.inr (Or.inr (Or.inr (Or.inl h)))
+
 /-! ## end of text -/
 
 /-- the last line segment has `mustBreak = true` (LB3), whatever the text ends with -/
@@ -76,5 +106,61 @@ theorem cutsV_last {V : Type} (isB : V → Bool) : ∀ (vs : List V) (acc : Nat)
       | nil => rw [h] at this; cases this
       | cons a as => rw [List.getLast?_cons_cons]; rw [h] at this; exact this
     · exact ih (acc + 1)
+
+
+/-! ## `HasTrailingLineBreak` is a predicate on the last code point
+
+`HasTrailingLineBreak(InString)` returns true iff the last code point (as `utf8.DecodeLastRune`
+returns it: U+FFFD for a trailing ill-formed byte, nothing for the empty input) is one of
+U+000A … U+000D, U+0085, U+2028, U+2029. For every byte string, from the classification of every code
+point by the line table (`Class.l_class`) and a kernel check of the reference rows. -/
+
+/-- the seven code points of the property -/
+def hardSet (r : Nat) : Bool := (0xA ≤ r && r ≤ 0xD) || r == 0x85 || (0x2028 ≤ r && r ≤ 0x2029)
+
+/-- a reference row is either inside the set and of class BK/CR/LF/NL, or disjoint from it and of
+another class -/
+def rowHard (row : Row) : Bool :=
+  if isHardBreak row.l then
+    (0xA ≤ row.lo && row.hi ≤ 0xD) || (row.lo == 0x85 && row.hi == 0x85) || (0x2028 ≤ row.lo && row.hi ≤ 0x2029)
+  else
+    (row.hi < 0xA || 0xD < row.lo) && (row.hi < 0x85 || 0x85 < row.lo) && (row.hi < 0x2028 || 0x2029 < row.lo)
+
+theorem rows_hard : sig.all rowHard = true := by decide +kernel
+
+/-- for every code point: the class is BK, CR, LF or NL iff the code point is one of the seven -/
+theorem hard_iff (r : Nat) (hr : r < 0x110000) : isHardBreak (propertyLineBreak r).1 = hardSet r := by
+  obtain ⟨row, hm, h1, h2⟩ := row_exists r hr
+  have hrow := List.all_eq_true.mp rows_hard row hm
+  rw [(l_class r row hm h1 h2).1]
+  unfold rowHard at hrow
+  unfold hardSet
+  split at hrow
+  · rename_i hh
+    rw [hh]
+    simp only [Bool.or_eq_true, Bool.and_eq_true, decide_eq_true_eq, beq_iff_eq] at hrow
+    symm
+    simp only [Bool.or_eq_true, Bool.and_eq_true, decide_eq_true_eq, beq_iff_eq]
+    omega
+  · rename_i hh
+    have : isHardBreak row.l = false := by simpa using hh
+    rw [this]
+    simp only [Bool.or_eq_true, Bool.and_eq_true, decide_eq_true_eq] at hrow
+    symm
+    apply Bool.eq_false_iff.mpr
+    simp only [ne_eq, Bool.or_eq_true, Bool.and_eq_true, decide_eq_true_eq, beq_iff_eq]
+    omega
+
+/-- **C12, first sentence**: for every byte string -/
+theorem hasTrailingLineBreak_iff (b : List Nat) :
+    hasTrailingLineBreak b = hardSet (Utf8.decodeLastRune b).1 := by
+  unfold hasTrailingLineBreak
+  exact hard_iff _ (Utf8.decodeLast_lt b)
+
+/-- the empty input: no last code point, result false -/
+example : hasTrailingLineBreak [] = false := by decide +kernel
+/-- a trailing ill-formed byte is U+FFFD, result false -/
+example : hasTrailingLineBreak [0x0A, 0xC3] = false ∧ Utf8.decodeLastRune [0x0A, 0xC3] = (0xFFFD, 1) := by decide +kernel
+example : hasTrailingLineBreak [0x61, 0xE2, 0x80, 0xA9] = true := by decide +kernel
 
 end Uniseg.Properties.C12
